@@ -117,6 +117,7 @@ def plan(tier, seed):
     for i in range(16):
         jobs.append({'space': 'S6', 'shard': i, 'of': 16, 'weight': 30000})
     jobs.append({'space': 'S7', 'weight': 5000})
+    jobs.append({'space': 'S9', 'weight': 3000})
     for i in range(len(S8_PAIRS)):
         for first in 'AB':
             jobs.append({'space': 'S8', 'pair': i, 'first': first,
@@ -235,6 +236,30 @@ S8_PAIRS = [
     ('role:nobody and', '@ or'),
     ([['@', 'role:nobody and']], '@ )'),
 ]
+
+
+def run_S9(cx, job):
+    """LONG rules that are malformed only near the end: a well-formed chain
+    of n alternatives (n = 2..40, so up to ~80 tokens, with `@` or a held role
+    among them) followed by one malformed tail.  The whole value is a non-rule
+    and denies everybody."""
+    tails = ['or', 'and', 'not', 'or or role:a', 'role:a', '( role:a',
+             'role:a )', 'or ( role:a', 'and not', 'or role:a role:b',
+             'or role:a:b or', ')']
+    creds_list = [{}, {'roles': ['a']}, {'roles': ['r0', 'a', 'b']}]
+    for n in range(2, 41):
+        for first in ('@', 'role:r0'):
+            for op in ('or', 'and'):
+                chain = (' %s ' % op).join(
+                    [first] + ['role:r%d' % i for i in range(1, n)])
+                for tail in tails:
+                    for sep in (' ', '  ', '\t'):
+                        text = chain + sep + tail
+                        cx.must_deny('S9', text, creds_list,
+                                     'S9|long|%s' % tail,
+                                     {'rule': text, 'alternatives': n},
+                                     nontrivial=True)
+    cx.acc.sample('S9', text)
 
 
 def run_S8(cx, job):
